@@ -180,4 +180,28 @@ def MatRef.atRC {len r c : Nat} (m : MatRef len r c) (i : Fin r) (j : Fin c) : F
 /-- the value a matrix has in the memory `mem` -/
 def MatRef.load {len r c : Nat} (mem : Mem len) (m : MatRef len r c) : Mat r c := ⟨m.s.load mem⟩
 
+/-! ## statement sequences -/
+
+/-- one statement of a scenario (the `mem` lines of the driver): a member operator applied to objects of the memory -/
+inductive Stmt (len : Nat) where
+  | add {n : Nat} (target x : Ref len n)
+  | sub {n : Nat} (target x : Ref len n)
+  | mul {n : Nat} (target x : Ref len n)
+  | smul {n : Nat} (target : Ref len n) (s : Scalar len)
+  | asg {n : Nat} (target x : Ref len n)
+  | ctor {n : Nat} (target x : Ref len n)
+  | set {n : Nat} (target : Ref len n) (i : Fin n) (value : Int)
+
+def Stmt.exec {len : Nat} : Stmt len → Mem len → Mem len
+  | .add t x, mem => addAssign t x mem
+  | .sub t x, mem => subAssign t x mem
+  | .mul t x, mem => mulAssign t x mem
+  | .smul t s, mem => mulAssignScalar t s mem
+  | .asg t x, mem => assignConv t x mem
+  | .ctor t x, mem => assignValue t (copy x mem) mem
+  | .set t i v, mem => setElem (t.atI i) v mem
+
+/-- the statements one after the other -/
+def Stmt.run {len : Nat} (stmts : List (Stmt len)) (mem : Mem len) : Mem len := stmts.foldl (fun m s => s.exec m) mem
+
 end Fcppt.C14
